@@ -83,11 +83,28 @@ def loss_of(case):
   return c01.noisy_per_example_loss if case.get('noisy') else c01.per_example_loss
 
 
+def anchored_sgd(lr):
+  """A user-defined fedjax.optimizers.Optimizer whose state is read from the
+  VALUES it is initialised with (SGD with a pull of 1/2 towards the point where
+  the optimizer was started -- the shape of lookahead / proximal optimizers)."""
+  def init(params):
+    return jax.tree_util.tree_map(jnp.asarray, params)
+
+  def apply(grads, anchor, params):
+    new = jax.tree_util.tree_map(lambda p, g, a: p - lr * (g + 0.5 * (p - a)),
+                                 params, grads, anchor)
+    return anchor, new
+
+  return fedjax.optimizers.Optimizer(init, apply)
+
+
 def build(case, which):
   """Builds one of the algorithms on the jit backend."""
   hp = c01.hparams_of(case['hparams'])
   reg = l2_half if case.get('reg') else None
   copt = c01.fj_optimizer(case['client_opt'])
+  if case.get('anchored_client_opt'):
+    copt = anchored_sgd(2.0 ** -case['client_opt']['lr_exp'])
   sopt = c01.fj_optimizer(case['server_opt'])
   with fedjax.for_each_client_backend(c01.backend_of(case['backend'])):
     if which == 'fedavg':
@@ -135,9 +152,9 @@ def run_pair(case, which):
   for rnd in case['rounds']:
     clients = c01.cohort(case, rnd, datasets)
     if case.get('probe') and clients:
-      # a round that is tried from this state first and thrown away (another
-      # cohort order): the state it started from is still the state
-      a.apply(sa, list(reversed(clients)))
+      # a round that is tried from this state first and thrown away: the state
+      # it started from is still the state
+      a.apply(sa, probe_clients(clients, case['hparams']['seed'] % 2 == 0))
     sa, da = a.apply(sa, clients)
     sb, db = b.apply(sb, clients)
     require(set(da) == set(db) == {c[0] for c in clients}, 'diagnostics_keys',
@@ -175,6 +192,21 @@ class ProxReference(c01.Reference):
     return {k: g[k] + mu * (params[k] - self._server[k]) for k in g}
 
 
+def probe_clients(clients, reverse=True):
+  """The cohort of a discarded trial round over the same client ids but other
+  data: in reverse order with each id holding its neighbour's dataset and key,
+  or in the same order with each id holding the first half of its examples (a
+  fresh slice of every client's data)."""
+  ids = [c[0] for c in clients]
+  if len(set(ids)) < len(ids):
+    # (a cohort that lists an id twice: keep every id with its own dataset)
+    return list(reversed(clients))
+  if not reverse:
+    return [(i, ds[:(len(ds) + 1) // 2], key) for i, ds, key in clients]
+  rest = clients[1:] + clients[:1]
+  return [(i, ds, key) for i, (_, ds, key) in zip(ids[::-1], rest)]
+
+
 def run_fedprox_mu(case):
   d = case['d']
   datasets = [c01.make_dataset(c, d) for c in case['pool']]
@@ -183,7 +215,10 @@ def run_fedprox_mu(case):
   ref = ProxReference(case)
   adaptive = any(case[o]['name'] in ('adam', 'adagrad', 'rmsprop') for o in ('client_opt', 'server_opt'))
   for r, rnd in enumerate(case['rounds']):
-    state, _ = alg.apply(state, c01.cohort(case, rnd, datasets))
+    clients = c01.cohort(case, rnd, datasets)
+    if case.get('probe') and clients:
+      alg.apply(state, probe_clients(clients, case['hparams']['seed'] % 2 == 0))
+    state, _ = alg.apply(state, clients)
     want = ref.round(rnd, datasets)
     got = c01.to_np(state.params)
     tol = (1e-4 if adaptive else 2e-5) * ref.scale
@@ -202,7 +237,10 @@ def run_mime_one_step(case):
   eta = 2.0 ** -case['server_lr_exp']
   w = {'w': np.asarray(case['w0'], np.float64) / 8.0, 'b': np.float64(case['b0'] / 8.0)}
   for r, rnd in enumerate(case['rounds']):
-    state, _ = alg.apply(state, c01.cohort(case, rnd, datasets))
+    clients = c01.cohort(case, rnd, datasets)
+    if case.get('probe') and clients:
+      alg.apply(state, probe_clients(clients, case['hparams']['seed'] % 2 == 0))
+    state, _ = alg.apply(state, clients)
     # full-batch gradient over all examples of the cohort at w
     xs = np.concatenate([np.asarray(datasets[i].raw_examples['x'], np.float64) for i, _ in rnd])
     ys = np.concatenate([np.asarray(datasets[i].raw_examples['y'], np.float64) for i, _ in rnd])
@@ -309,12 +347,16 @@ def case_strategy(draw, tier, relation):
         'seed': draw(st.integers(0, 2 ** 16))}
   if relation == 'apfl':
     case['coefficient'] = draw(st.integers(0, 8))
+  if relation in ('apfl', 'fedprox0', 'hyp1') and draw(st.integers(0, 3)) == 0:
+    # the client optimizer is a user-defined one whose init() keeps the values
+    # it was started from (both algorithms of the pair get the same one)
+    case['anchored_client_opt'] = True
   if relation in ('hyp1', 'mimelite'):
     # both take a regularizer: the counterpart is FedAvg on loss + regularizer
     case['reg'] = draw(st.booleans())
   if relation == 'mimelite':
     case['clip'] = draw(st.booleans())
-  if relation in ('fedprox0', 'hyp1', 'mimelite', 'apfl'):
+  if relation in ('fedprox0', 'hyp1', 'mimelite', 'apfl', 'fedprox_mu', 'mime_one_step'):
     case['probe'] = draw(st.integers(0, 2)) == 0
   if relation in ('fedprox0', 'mimelite'):
     # a loss that uses its key.  FedProx and MimeLite hand the client key to the
